@@ -108,9 +108,22 @@ fn s<'a>(c: &'a Value, k: &str) -> &'a str {
     c.get(k).and_then(|v| v.as_str()).unwrap_or("")
 }
 
-fn cs(x: &str) -> CString {
+/// a byte-string path with the two accessors kernel_openat2 used on its former &str argument
+pub struct PathBytes(pub Vec<u8>);
+impl PathBytes {
+    pub fn as_bytes(&self) -> &[u8] {
+        &self.0
+    }
+}
+impl AsRef<std::ffi::OsStr> for PathBytes {
+    fn as_ref(&self) -> &std::ffi::OsStr {
+        std::os::unix::ffi::OsStrExt::from_bytes(&self.0)
+    }
+}
+
+fn cs<S: AsRef<std::ffi::OsStr>>(x: S) -> CString {
     // paths with NUL: C strings end at the NUL, which is exactly what a C caller would pass
-    let bytes: Vec<u8> = x.bytes().take_while(|b| *b != 0).collect();
+    let bytes: Vec<u8> = std::os::unix::ffi::OsStrExt::as_bytes(x.as_ref()).iter().copied().take_while(|b| *b != 0).collect();
     CString::new(bytes).unwrap()
 }
 
@@ -189,7 +202,9 @@ fn unit_result(r: Result<(), Error>) -> Value {
 }
 
 /// direct kernel reference: openat2(root, path, {flags, IN_ROOT|NO_MAGICLINKS|rflags})
-pub fn kernel_openat2(rootfd: i32, path: &str, flags: i64, resolve: u64, keep: &mut Option<OwnedFd>) -> Value {
+pub fn kernel_openat2<S: AsRef<std::ffi::OsStr>>(rootfd: i32, path: S, flags: i64, resolve: u64, keep: &mut Option<OwnedFd>) -> Value {
+    let path = std::os::unix::ffi::OsStrExt::as_bytes(path.as_ref()).to_vec();
+    let path = PathBytes(path);
     #[repr(C)]
     struct How {
         flags: u64,
@@ -251,7 +266,12 @@ pub fn exec_call(ctx: &mut Ctx, idx: usize, c: &Value) -> Value {
 fn exec_call_inner(ctx: &mut Ctx, idx: usize, c: &Value, keep: &mut Option<OwnedFd>) -> Value {
     let op = s(c, "op");
     let api = if s(c, "api") == "c" { "c" } else { "rust" };
-    let path = s(c, "path");
+    // paths are byte strings: "path_hex" carries bytes that are not valid UTF-8
+    let path_owned: std::ffi::OsString = match c.get("path_hex").and_then(|v| v.as_str()) {
+        Some(h) => std::os::unix::ffi::OsStringExt::from_vec((0..h.len() / 2).filter_map(|i| u8::from_str_radix(&h[2 * i..2 * i + 2], 16).ok()).collect()),
+        None => s(c, "path").into(),
+    };
+    let path: &std::path::Path = std::path::Path::new(&path_owned);
     let tag = format!("BEGIN {}", idx);
     // the C ABI takes a raw descriptor number: cases may pass any value (negative, AT_FDCWD, ...)
     let rootraw = c.get("rootfd").and_then(|v| v.as_i64()).map(|x| x as i32).unwrap_or(ctx.root_raw);
@@ -577,7 +597,7 @@ fn exec_call_inner(ctx: &mut Ctx, idx: usize, c: &Value, keep: &mut Option<Owned
             // the calling thread has its own descriptor table (unshare(CLONE_FILES)); the thread-group
             // leader holds *other* files at the descriptor numbers the thread is about to get
             let rootpath = s(c, "rootpath_abs").to_string();
-            let target = path.to_string();
+            let target = path.to_path_buf();
             let decoy = cs(s(c, "decoy"));
             let fl = c["oflags"].as_i64().unwrap_or(0) as i32;
             let (tx, rx) = std::sync::mpsc::channel::<()>();
